@@ -12,6 +12,7 @@ import (
 	"sort"
 	"strings"
 	"sync"
+	"sync/atomic"
 	"time"
 	"verif/harness/pki"
 
@@ -220,6 +221,8 @@ func run(r *core.Run) int {
 		e := e
 		live.Add(1)
 		go func() { defer live.Done(); liveExpiry(r, e) }()
+		live.Add(1)
+		go func() { defer live.Done(); slowExpiry(r, e) }()
 	}
 	r.Set("alphabet", alpha)
 	r.Assume("live next-update observations: the wall clock does not step backwards during the three seconds they take")
@@ -263,6 +266,54 @@ func run(r *core.Run) int {
 }
 
 func pick(rng *rand.Rand, a []string) string { return a[rng.IntN(len(a))] }
+
+// slowExpiry: the check begins while the Good answer is current; the responder
+// delivers it only after its next-update instant. The answer was expired on
+// arrival, so OK is a violation however the machine is loaded (the responder
+// double reads the clock right before it answers).
+func slowExpiry(r *core.Run, entry string) {
+	fam := sims.Fam(2, "p256", false)
+	sh := sims.HTTPShape(1, 0)
+	kit := fam.KitFor(0, sh, sims.Shape{})
+	T := time.Now().Truncate(time.Second).Add(2 * time.Second)
+	body := pki.BuildOCSP(&pki.OCSPResp{Issuer: kit.Issuer, SignKey: kit.IKey,
+		Singles: []pki.OCSPSingle{{Serial: kit.Cert.SerialNumber, Status: pki.OCSPGood, Reason: -1, ThisUpdate: pki.Past, NextUpdate: T}}})
+	net := netsim.New()
+	var late atomic.Bool
+	net.Handle(fam.Host(0, "o", 0), func(*netsim.Request) netsim.Reply {
+		for !time.Now().After(T.Add(20 * time.Millisecond)) {
+			time.Sleep(5 * time.Millisecond)
+		}
+		late.Store(true)
+		return netsim.Reply{Body: body, Class: "good-until-T, delivered late"}
+	})
+	chain := fam.Chain([]sims.Shape{sh, {}})
+	began := time.Now()
+	var rs []*result.CertRevocationResult
+	var cerr error
+	if p := core.Guard(func() {
+		if entry == "ocsp" {
+			rs, cerr = rocsp.CheckStatus(rocsp.Options{CertChain: chain, HTTPClient: net.Client()})
+		} else if v, err := revocation.NewWithOptions(revocation.Options{OCSPHTTPClient: net.Client(), CRLFetcher: sims.NewFetcher()}); err == nil {
+			rs, cerr = v.ValidateContext(context.Background(), revocation.ValidateContextOptions{CertChain: chain})
+		}
+	}); p != nil {
+		r.Count("panicked", 1)
+		return
+	}
+	r.Eval(1)
+	if !began.Before(T) || !late.Load() {
+		r.Inconclusive("slow expiry: the call did not straddle the instant")
+		return
+	}
+	r.Count("slow-expiry-calls-straddling-the-instant", 1)
+	r.Nontrivial("slow-expiry " + entry)
+	if cerr == nil && len(rs) == 2 && rs[0] != nil && rs[0].Result == result.ResultOK {
+		r.Violation("expired-answer-accepted-after-slow-delivery:"+entry,
+			"a check ("+entry+") that began before the Good answer's next-update instant received it only after the instant and still came out OK",
+			map[string]any{"note": "live observation: re-run the check"})
+	}
+}
 
 // liveExpiry watches an authentic Good answer cross its next-update instant in
 // real time. The workload uses the clock, the verdict does not depend on
